@@ -324,7 +324,13 @@ void parsec_data_end_transfer_ownership_to_copy(parsec_data_t* data,
     assert( NULL != copy );
     assert(copy->data_transfer_status != PARSEC_DATA_STATUS_UNDER_TRANSFER /* this must be set by the caller */);
     if( PARSEC_FLOW_ACCESS_READ & access_mode ) {
-        copy->coherency_state = PARSEC_DATA_COHERENCY_SHARED;
+        /* A read by the current owner must not demote its OWNED copy: older
+         * SHARED copies left behind by the last write recognise that they are
+         * stale only by the presence of an OWNED copy with a larger version
+         * (see parsec_data_start_transfer_ownership_to_copy). */
+        if( PARSEC_DATA_COHERENCY_OWNED != copy->coherency_state ) {
+            copy->coherency_state = PARSEC_DATA_COHERENCY_SHARED;
+        }
     }
     if( PARSEC_FLOW_ACCESS_WRITE & access_mode ) {
         copy->coherency_state = PARSEC_DATA_COHERENCY_OWNED;
